@@ -527,17 +527,10 @@ func (c *Ctx) SingleCollectingListener(ob *core.Obligation) {
 	key := "listener:" + core.SSAName(fn)
 	var listeners []ssa.Value
 	recognizers := 0
-	for _, ci := range core.Calls(fn) {
-		call := ci.Common()
-		o := core.CalleeObj(call)
-		if o == nil {
-			continue
-		}
-		if o.Name() == "AddErrorListener" {
-			recognizers++
-			args := core.CallArgs(call)
-			listeners = append(listeners, core.Strip(args[len(args)-1]))
-		}
+	for _, site := range c.callsThroughHelpers(fn, func(o types.Object) bool { return o.Name() == "AddErrorListener" }) {
+		recognizers++
+		args := core.CallArgs(site.call.Common())
+		listeners = append(listeners, core.Strip(site.actual(args[len(args)-1])))
 	}
 	if recognizers < 2 {
 		ob.Fail(key, c.P.Pos(fn.Pos()), "the collecting listener is not installed on both the lexer and the parser: some syntax errors never reach the result")
@@ -578,6 +571,53 @@ func (c *Ctx) SingleCollectingListener(ob *core.Obligation) {
 	}
 	ob.Pass(key, c.P.Pos(fn.Pos()), "one listener on lexer and parser; its list is what Parse returns")
 	_ = removed
+}
+
+// helperSite: a call found in fn or in a helper of its package that fn calls; actual maps a
+// value of the helper that is one of its parameters back to what fn passed.
+type helperSite struct {
+	call   ssa.CallInstruction
+	via    *ssa.Call // nil when the call is in fn itself
+	helper *ssa.Function
+}
+
+func (h helperSite) actual(v ssa.Value) ssa.Value {
+	v = core.Strip(v)
+	if h.via == nil {
+		return v
+	}
+	if p, ok := v.(*ssa.Parameter); ok {
+		if i := paramIndex(h.helper, p); i >= 0 && i < len(h.via.Call.Args) {
+			return core.Strip(h.via.Call.Args[i])
+		}
+	}
+	return v
+}
+
+// callsThroughHelpers lists the calls whose callee satisfies pred, in fn and in the module
+// functions of its package that fn calls directly.
+func (c *Ctx) callsThroughHelpers(fn *ssa.Function, pred func(types.Object) bool) []helperSite {
+	var out []helperSite
+	for _, ci := range core.Calls(fn) {
+		if o := core.CalleeObj(ci.Common()); o != nil && pred(o) {
+			out = append(out, helperSite{call: ci})
+		}
+		call, ok := ci.(*ssa.Call)
+		if !ok {
+			continue
+		}
+		sc := call.Call.StaticCallee()
+		if sc == nil || sc == fn || len(sc.Blocks) == 0 || relOfFn(sc) != relOfFn(fn) {
+			continue
+		}
+		for _, c2 := range core.Calls(sc) {
+			if o := core.CalleeObj(c2.Common()); o != nil && pred(o) {
+				out = append(out, helperSite{call: c2, via: call, helper: sc})
+				c.Touch(sc)
+			}
+		}
+	}
+	return out
 }
 
 // StringLiteralBody (R8): the value of a string literal is its token text without exactly
@@ -699,13 +739,26 @@ func (c *Ctx) SaveRestoreClosures(ob *core.Obligation) {
 }
 
 func (c *Ctx) restoresEntryValue(v ssa.Value, closure, parent *ssa.Function, f *types.Var) bool {
-	// v = load of free var (captured by reference) or the free var itself
+	// v = load of free var (captured by reference) or the free var itself, or a field of a
+	// captured snapshot struct
 	var fv *ssa.FreeVar
+	var snapField *types.Var
 	switch x := v.(type) {
 	case *ssa.UnOp:
 		fv, _ = x.X.(*ssa.FreeVar)
+		if fa, ok := x.X.(*ssa.FieldAddr); ok && fv == nil {
+			if q, ok := fa.X.(*ssa.FreeVar); ok {
+				fv, snapField = q, core.FieldOf(fa)
+			}
+		}
 	case *ssa.FreeVar:
 		fv = x
+	case *ssa.Field:
+		if ld, ok := x.X.(*ssa.UnOp); ok {
+			if q, ok := ld.X.(*ssa.FreeVar); ok {
+				fv, snapField = q, core.FieldOf(x)
+			}
+		}
 	}
 	if fv == nil {
 		return false
@@ -735,6 +788,33 @@ func (c *Ctx) restoresEntryValue(v ssa.Value, closure, parent *ssa.Function, f *
 					return !fieldStoredBefore(parent, f, ld)
 				}
 				return false
+			}
+			if snapField != nil {
+				// the snapshot's field is written once, with a load of f taken before f is written
+				var fst *ssa.Store
+				nst := 0
+				if al.Referrers() != nil {
+					for _, r := range *al.Referrers() {
+						fa, ok := r.(*ssa.FieldAddr)
+						if !ok || core.FieldOf(fa) != snapField || fa.Referrers() == nil {
+							continue
+						}
+						for _, r2 := range *fa.Referrers() {
+							if s2, ok := r2.(*ssa.Store); ok && s2.Addr == ssa.Value(fa) {
+								fst = s2
+								nst++
+							}
+						}
+					}
+				}
+				if nst != 1 {
+					return false
+				}
+				ld, ok := fst.Val.(*ssa.UnOp)
+				if !ok || core.FieldOf(ld.X) != f {
+					return false
+				}
+				return !fieldStoredBefore(parent, f, ld)
 			}
 			st := onlyStore(al)
 			if st == nil {
@@ -919,44 +999,67 @@ func (c *Ctx) OverdraftDiagnosticUnconditional(ob *core.Obligation) {
 		return
 	}
 	errKinds := c.errorKinds()
-	pc := core.NewPathConds(fn)
 	n := 0
-	for _, b := range fn.Blocks {
-		if !entry.Dominates(b) {
-			continue
+	type region struct {
+		fn    *ssa.Function
+		entry *ssa.BasicBlock
+	}
+	regions := []region{{fn, entry}}
+	// a helper of the package the arm delegates to (not a traversal over the sources)
+	for _, call := range callsIn(fn, entry, func(sc *ssa.Function) bool {
+		return sc != fn && len(sc.Blocks) > 0 && relOfFn(sc) == relOfFn(fn) && len(clauseEntries(sc, src)) <= 1
+	}) {
+		takesNode := false
+		for _, prm := range call.Call.StaticCallee().Params {
+			if typeShort(derefT(prm.Type())) == "SourceOverdraft" {
+				takesNode = true
+			}
 		}
-		for _, in := range b.Instrs {
-			al, ok := in.(*ssa.Alloc)
-			if !ok || al.Comment != "complit" {
+		if takesNode {
+			regions = append(regions, region{call.Call.StaticCallee(), nil})
+			c.Touch(call.Call.StaticCallee())
+		}
+	}
+	for _, rg := range regions {
+		fn, entry := rg.fn, rg.entry
+		pc := core.NewPathConds(fn)
+		for _, b := range fn.Blocks {
+			if entry != nil && !entry.Dominates(b) {
 				continue
 			}
-			tn := typeShort(derefT(al.Type()))
-			if !errKinds[tn] || tn == "TypeMismatch" || tn == "UnboundVariable" {
-				continue
-			}
-			n++
-			key := "sendall-uncond:" + tn
-			extra := ""
-			epc := core.NewPathConds(fn)
-			_ = epc
-			for _, term := range pc.At(b) {
-				for _, l := range term {
-					if f, is := nilFieldLiteral(l, "SourceOverdraft"); is && f == "Bounded" {
-						continue
-					}
-					if ld, ok := l.Cond.(*ssa.UnOp); ok && ld.Op == token.MUL && core.FieldOf(ld.X) == flagF {
-						continue
-					}
-					if cb := condBlock(l.Cond); cb == nil || !entry.Dominates(cb) {
-						continue // a condition established before the arm (the type switch itself, earlier guards)
-					}
-					extra = core.ShortVal(l.Cond)
+			for _, in := range b.Instrs {
+				al, ok := in.(*ssa.Alloc)
+				if !ok || al.Comment != "complit" {
+					continue
 				}
-			}
-			if extra == "" {
-				ob.Pass(key, c.P.Pos(al.Pos()), "reported for every unbounded overdraft source of a send-all, whatever its address expression")
-			} else {
-				ob.Fail(key, c.P.Pos(al.Pos()), "the send-all error for an unbounded overdraft is only reported under an extra condition ("+extra+"), but the interpreter rejects the shape unconditionally: e.g. an address given by a variable passes the check and fails at run time")
+				tn := typeShort(derefT(al.Type()))
+				if !errKinds[tn] || tn == "TypeMismatch" || tn == "UnboundVariable" {
+					continue
+				}
+				n++
+				key := "sendall-uncond:" + tn
+				extra := ""
+				epc := core.NewPathConds(fn)
+				_ = epc
+				for _, term := range pc.At(b) {
+					for _, l := range term {
+						if f, is := nilFieldLiteral(l, "SourceOverdraft"); is && f == "Bounded" {
+							continue
+						}
+						if ld, ok := l.Cond.(*ssa.UnOp); ok && ld.Op == token.MUL && core.FieldOf(ld.X) == flagF {
+							continue
+						}
+						if cb := condBlock(l.Cond); entry != nil && (cb == nil || !entry.Dominates(cb)) {
+							continue // a condition established before the arm (the type switch itself, earlier guards)
+						}
+						extra = core.ShortVal(l.Cond)
+					}
+				}
+				if extra == "" {
+					ob.Pass(key, c.P.Pos(al.Pos()), "reported for every unbounded overdraft source of a send-all, whatever its address expression")
+				} else {
+					ob.Fail(key, c.P.Pos(al.Pos()), "the send-all error for an unbounded overdraft is only reported under an extra condition ("+extra+"), but the interpreter rejects the shape unconditionally: e.g. an address given by a variable passes the check and fails at run time")
+				}
 			}
 		}
 	}
